@@ -1550,11 +1550,11 @@ def execute_auth(case):
 
 # ---------------------------------------------------------------------------
 
-from engines import c20shared
+from engines import c20handoff, c20shared
 
 PARTS = {'hist': execute_hist, 'conc': execute_conc,
          'registered': execute_registered, 'auth': execute_auth,
-         'shared': c20shared.execute}
+         'shared': c20shared.execute, 'handoff': c20handoff.execute}
 
 
 def _rounds(ctx, part, make_strategy, execute, n, budget, **kw):
@@ -1597,6 +1597,9 @@ def run(ctx):
         # referents shared by several proxies through a registered callable
         _rounds(ctx, 'shared', c20shared.cases, c20shared.execute,
                 10 if q else 40, 120, shrink_budget=30 if q else 100)
+        # a proxy handed to a child in its Process args, every start method
+        _rounds(ctx, 'handoff', c20handoff.cases, c20handoff.execute,
+                4 if q else 30, 120, shrink_budget=8 if q else 30)
         ctx.notes['managers_started'] = _M['started']
     finally:
         _shutdown_manager()
